@@ -25,9 +25,11 @@ def dbm : Nat → Int
 
 def leapAdj (y : Int) (m : Nat) : Int := if isLeap y && decide (3 ≤ m) then 1 else 0
 
-def daysIn (y : Int) (m : Nat) : Nat :=
-  if m = 2 then (if isLeap y then 29 else 28)
+def daysInL (leap : Bool) (m : Nat) : Nat :=
+  if m = 2 then (if leap then 29 else 28)
   else if m = 4 ∨ m = 6 ∨ m = 9 ∨ m = 11 then 30 else 31
+
+def daysIn (y : Int) (m : Nat) : Nat := daysInL (isLeap y) m
 
 /-- day number of year `y`, month `m ∈ 1..12`, day `d` (any integer: days simply add) -/
 def ordinal (y : Int) (m : Nat) (d : Int) : Int := dby y + dbm m + leapAdj y m + d
@@ -51,21 +53,14 @@ def yearOf (n : Int) : Int × Int :=
   let r3 := r2 - 365 * n1
   (1 + 400 * n400 + 100 * n100 + 4 * n4 + n1, r3)
 
+/-- walk the months from `m` with a zero-based day offset `yd` (fuel = months left after `m`) -/
+def monthDayFrom (leap : Bool) : Nat → Nat → Int → Nat × Int
+  | 0, m, yd => (m, yd + 1)
+  | f + 1, m, yd =>
+    if yd < daysInL leap m then (m, yd + 1) else monthDayFrom leap f (m + 1) (yd - daysInL leap m)
+
 /-- month (1..12) and day (1..) from leap flag and zero-based day of year -/
-def monthDay (leap : Bool) (yd : Int) : Nat × Int :=
-  let l : Int := if leap then 1 else 0
-  if yd < 31 then (1, yd + 1)
-  else if yd < 59 + l then (2, yd - 31 + 1)
-  else if yd < 90 + l then (3, yd - (59 + l) + 1)
-  else if yd < 120 + l then (4, yd - (90 + l) + 1)
-  else if yd < 151 + l then (5, yd - (120 + l) + 1)
-  else if yd < 181 + l then (6, yd - (151 + l) + 1)
-  else if yd < 212 + l then (7, yd - (181 + l) + 1)
-  else if yd < 243 + l then (8, yd - (212 + l) + 1)
-  else if yd < 273 + l then (9, yd - (243 + l) + 1)
-  else if yd < 304 + l then (10, yd - (273 + l) + 1)
-  else if yd < 334 + l then (11, yd - (304 + l) + 1)
-  else (12, yd - (334 + l) + 1)
+def monthDay (leap : Bool) (yd : Int) : Nat × Int := monthDayFrom leap 11 1 yd
 
 /-- `t.Date()` of the instant at midnight of day number `n` -/
 def civil (n : Int) : Int × Nat × Int :=
